@@ -783,7 +783,7 @@ def run_tool(eng: symx.Engine, scenario: ToolScenario, config: Config) -> Run:
     """Call the tool; the graph it builds is traversed under the scheduler inside run_workers."""
     global CUR
     install_tools()
-    from avocado_i2n import intertest_setup
+    from avocado_i2n import intertest_setup, params_parser
     from virttest.utils_params import Params
 
     run = Run(eng, scenario, config)  # type: ignore[arg-type]
@@ -804,7 +804,8 @@ def run_tool(eng: symx.Engine, scenario: ToolScenario, config: Config) -> Run:
     cfg["vms_params"] = Params(dict(scenario.vms_params))
     try:
         run.tool_result = getattr(intertest_setup, scenario.tool)(cfg, tag=scenario.tag)
-    except ValueError as e:
+    except (ValueError, params_parser.EmptyCartesianProduct) as e:
+        # the tool refused the request before running anything
         run.tool_error = e
     return run
 
